@@ -50,6 +50,13 @@ rule("TopStmtList", ["", "TopStmt ';' TopStmtList", "TopStmt ';' TopStmtList", "
 rule("TopStmt", ["@S TopStmtBody @."])
 rule("TopStmtBody", ["Assign", "Assign", "CallStmt", "CallStmt", "IfStmt", "CaseStmt", "ForStmt", "WhileStmt", "RepeatStmt", "TryStmt",
                      "WithStmt", "RaiseStmt", "InheritedStmt", "Compound", "'exit'", "'goto' Ident"], ["Assign", "CallStmt"])
+# anonymous routines with parameter lists whose body STARTS with each kind of structured statement (start symbol of Gen_anon.cfg)
+rule("AnonTop", ["AnonTopStmt ';' AnonTop", "AnonTopStmt ';'", "AnonTopStmt ';' TopStmt ';'"], ["AnonTopStmt ';'"])
+rule("AnonTopStmt", ["@S Ident ':=' AnonRoutineP @.", "@S Ident '(' AnonRoutineP ')' @.", "@S Ident '(' Expr ',' AnonRoutineP ')' @.", "@S Designator '.' Ident '(' AnonRoutineP ',' Expr ')' @."])
+rule("AnonRoutineP", ["'procedure' '(' Params ')' @A 'begin' @{ AnonFirst ';' StmtList @C 'end' @} @.",
+                      "'function' '(' Params ')' ':' Type @A 'begin' @{ AnonFirst ';' StmtList @C 'end' @} @.",
+                      "'procedure' '(' Params ')' AnonVarSection @A 'begin' @{ AnonFirst ';' StmtList @C 'end' @} @."])
+rule("AnonFirst", ["@S IfStmt @.", "@S IfStmt @.", "@S CaseStmt @.", "@S ForStmt @.", "@S WhileStmt @.", "@S TryStmt @.", "@S RepeatStmt @.", "@S WithStmt @."], ["@S IfStmt @."])
 rule("UnitFile", ["'unit' QualIdent ';' 'interface' OptUses IntfDecls 'implementation' OptUses ImplDecls UnitEnd"])
 rule("UnitEnd", ["'end' '.'", "@R 'initialization' @{ StmtList @} @. 'end' '.'",
                  "@R 'initialization' @{ StmtList @} @. @R 'finalization' @{ StmtList @} @. 'end' '.'"])
@@ -141,7 +148,10 @@ rule("LocalDecls", ["", "", "VarSection LocalDecls", "ConstSection LocalDecls", 
 # ------------------------------------------------------------------ statements
 rule("StmtList", ["", "Stmt ';' StmtList", "Stmt ';' StmtList", "Stmt"], [""])
 rule("Stmt", ["@S StmtBody @."])
-rule("UStmt", ["@R StmtBody @."])
+rule("UStmt", ["@U UStmtBody @."])
+# (a compound statement as a body is the `@B begin` alternative of Body: `do begin` stays on the controlling line)
+rule("UStmtBody", ["Assign", "Assign", "CallStmt", "CallStmt", "IfStmt", "CaseStmt", "ForStmt", "WhileStmt", "RepeatStmt", "TryStmt",
+                   "WithStmt", "RaiseStmt", "InheritedStmt", "'exit'", "'break'", "'goto' Ident"], ["Assign", "CallStmt"])
 rule("StmtBody", ["Assign", "Assign", "CallStmt", "CallStmt", "IfStmt", "CaseStmt", "ForStmt", "WhileStmt", "RepeatStmt", "TryStmt",
                   "WithStmt", "RaiseStmt", "InheritedStmt", "Compound", "'exit'", "'break'", "InlineVar", "'goto' Ident"],
      ["Assign", "CallStmt"])
@@ -153,13 +163,13 @@ rule("InlineVar", ["'var' Ident ':' Type ':=' Expr", "'var' Ident ':=' Expr", "'
 rule("RaiseStmt", ["'raise'", "'raise' TypeIdent '.' 'Create' '(' String ')'", "'raise' Expr 'at' Expr"], ["'raise'"])
 rule("InheritedStmt", ["'inherited'", "'inherited' Ident", "'inherited' Ident '(' ExprList ')'"], ["'inherited'"])
 rule("Compound", ["'begin' @{ StmtList @C 'end' @}"])
-rule("Body", ["@B 'begin' @{ StmtList @C 'end' @}", "@B 'begin' @{ StmtList @C 'end' @}", "UStmt"], ["@R SimpleBody @."])
+rule("Body", ["@B 'begin' @{ StmtList @C 'end' @}", "@B 'begin' @{ StmtList @C 'end' @}", "UStmt"], ["@U SimpleBody @."])
 rule("BlockBody", ["@B 'begin' @{ StmtList @C 'end' @}"])
-rule("ThenBody", ["BlockBody", "@R SimpleBody @."], ["@R SimpleBody @."])   # then-branch of an if that has an else (no dangling else)
-rule("IfStmt", ["'if' Expr 'then' Body", "'if' Expr 'then' ThenBody 'else' Body", "'if' Expr 'then' ThenBody 'else' ElseIf"],
+rule("ThenBody", ["BlockBody", "@U SimpleBody @."], ["@U SimpleBody @."])   # then-branch of an if that has an else (no dangling else)
+rule("IfStmt", ["'if' Expr 'then' Body", "'if' Expr 'then' ThenBody @E 'else' Body", "'if' Expr 'then' ThenBody @E 'else' ElseIf"],
      ["'if' Expr 'then' @R SimpleBody @."])
 # the `if` of an `else if` is a construct of its own: chained on the `else` line or (after a comment) on its own, deeper line
-rule("ElseIf", ["@R 'if' Expr 'then' ThenBody 'else' Body @.", "@R 'if' Expr 'then' BlockBody @."], ["@R 'if' Expr 'then' BlockBody @."])
+rule("ElseIf", ["@R 'if' Expr 'then' ThenBody @E 'else' Body @.", "@R 'if' Expr 'then' BlockBody @."], ["@R 'if' Expr 'then' BlockBody @."])
 rule("CaseStmt", ["'case' Expr 'of' @{ CaseArm CaseArms @C 'end' @}", "'case' Expr 'of' @{ CaseArm CaseArms 'else' StmtList @C 'end' @}"],
      ["'case' Expr 'of' @{ CaseArm @C 'end' @}"])
 rule("CaseArms", ["", "CaseArm CaseArms"])
@@ -170,14 +180,14 @@ rule("CaseLabel", ["Number", "Ident", "Number '..' Number", "String"], ["Number"
 rule("ForStmt", ["'for' Ident ':=' Expr 'to' Expr 'do' Body", "'for' Ident ':=' Expr 'downto' Expr 'do' Body", "'for' Ident 'in' Expr 'do' Body",
                  "'for' 'var' Ident ':=' Expr 'to' Expr 'do' Body", "'for' 'var' Ident 'in' Expr 'do' Body"],
      ["'for' Ident 'in' Ident 'do' @R SimpleBody @."])
-rule("WhileStmt", ["'while' Expr 'do' Body"], ["'while' Ident 'do' @R SimpleBody @."])
-rule("WithStmt", ["'with' Designator 'do' Body", "'with' Designator ',' Designator 'do' Body"], ["'with' Ident 'do' @R SimpleBody @."])
+rule("WhileStmt", ["'while' Expr 'do' Body"], ["'while' Ident 'do' @U SimpleBody @."])
+rule("WithStmt", ["'with' Designator 'do' Body", "'with' Designator ',' Designator 'do' Body"], ["'with' Ident 'do' @U SimpleBody @."])
 rule("RepeatStmt", ["'repeat' @{ StmtList @C 'until' Expr @}"])
 rule("TryStmt", ["'try' @{ StmtList @C 'finally' StmtList @C 'end' @}", "'try' @{ StmtList @C 'except' StmtList @C 'end' @}",
                  "'try' @{ StmtList @C 'except' OnHandlers @C 'end' @}", "'try' @{ StmtList @C 'except' OnHandlers 'else' StmtList @C 'end' @}"],
      ["'try' @{ StmtList @C 'finally' StmtList @C 'end' @}"])
 rule("OnHandlers", ["OnHandler", "OnHandler OnHandlers"], ["OnHandler"])
-rule("OnHandler", ["@S 'on' Ident ':' TypeName 'do' Body ';' @.", "@S 'on' TypeName 'do' Body ';' @."], ["@S 'on' TypeName 'do' @R SimpleBody @. ';' @."])
+rule("OnHandler", ["@S 'on' Ident ':' TypeName 'do' Body ';' @.", "@S 'on' TypeName 'do' Body ';' @."], ["@S 'on' TypeName 'do' @U SimpleBody @. ';' @."])
 
 # ------------------------------------------------------------------ expressions
 rule("Expr", ["SimpleExpr", "SimpleExpr", "SimpleExpr RelOp SimpleExpr", "SimpleExpr 'in' SetCtor", "SimpleExpr 'is' TypeName"], ["Factor0"])
